@@ -541,6 +541,20 @@ def h_vecdot(I, args, kw, st, n):
     return Arr([(ai, ac)], sum_over(aj, ad, prod))
 
 
+def h_vdot(I, args, kw, st, n):
+    """np.vdot(a, b) = sum_k conj(a[k]) * b[k]  for 1-D arguments (the FIRST argument is conjugated)."""
+    if len(args) != 2: return Opaque("vdot arguments")
+    a, b = args
+    if isinstance(a, LocalArr): a = _arr(a, st)
+    if isinstance(b, LocalArr): b = _arr(b, st)
+    A, B = as_arr(a), as_arr(b)
+    if A is None or B is None or is_opaque(A) or is_opaque(B) or A.ndim != 1 or B.ndim != 1: return Opaque("vdot operands")
+    (av, ac), = A.axes; (bv, bc), = B.axes
+    if not ac.eq(bc): return Mismatch(f"vdot lengths differ: {ac!r} vs {bc!r}")
+    prod = lift2("*", lift1(lambda x: x.conj(), A.body), subst_val(B.body, {bv: X.var(av)}))
+    return sum_over(av, ac, prod)
+
+
 def h_repeat(I, args, kw, st, n):
     v, cnt = args[0], to_x(args[1])
     if to_x(v) is None or cnt is None: return Opaque("np.repeat")
@@ -813,6 +827,7 @@ _reg("numpy.correlate", h_correlate)
 _reg("numpy.lib.stride_tricks.sliding_window_view", h_sliding)
 _reg("numpy.einsum", h_einsum)
 _reg("numpy.vecdot numpy.linalg.vecdot", h_vecdot)
+_reg("numpy.vdot", h_vdot)
 _reg("numpy.repeat", h_repeat)
 _reg("numpy.fft.fftfreq", h_fftfreq)
 _reg("numpy.searchsorted", h_searchsorted)
